@@ -196,7 +196,7 @@ class Run:
             self.trivial += 1
         if sample is not None:
             self.sample(sample, tag=tag)
-        elif len(self.samples) < MAX_SAMPLES and nontrivial and self.evaluations in _AUTO_SAMPLE_AT:
+        elif len(self.samples) < MAX_SAMPLES and nontrivial and (self.evaluations in _AUTO_SAMPLE_AT or not self.samples):
             # every evidence file shows a few of the actual cases even when the property
             # module never nominates one: the case as it was digested (class tag + inputs)
             self.samples.append({"tag": tag, "auto": True, "case": jsonable(list(digest_parts))})
